@@ -43,9 +43,9 @@ structure SlicerOK (avg var : Int) : Prop where
 `start ≤ end`, every list of random draws (any values, any length) and fuel exceeding the
 size: `chunk` terminates and returns a chain of offsets from `start` to `end` whose pieces
 are each at most `average + variation` long and — when the input is non-empty — non-empty. -/
-theorem C12_chunk (avg var : Int) (h : SlicerOK avg var) :
+theorem C12_chunk (g : Bool) (avg var : Int) (h : SlicerOK avg var) :
     ∀ (fuel : Nat) (s e : Int) (draws : List Int), s ≤ e → e - s < fuel →
-      ∃ offs rest, slicerChunk avg var fuel s e draws = .ok offs rest ∧ Chain s e offs ∧
+      ∃ offs rest, slicerChunk g avg var fuel s e draws = .ok offs rest ∧ Chain s e offs ∧
         (∀ p ∈ offs, p.2 - p.1 ≤ avg + var ∧ (s < e → p.1 < p.2) ∧ p.1 ≤ p.2) := by
   obtain ⟨hv0, hva, hw⟩ := h
   have hwrap : wrap64 (var * 2) = var * 2 := wrap64_id _ (by omega) hw
@@ -55,17 +55,32 @@ theorem C12_chunk (avg var : Int) (h : SlicerOK avg var) :
   | succ fuel ih =>
     intro s e draws hse hfuel
     unfold slicerChunk
+    have hdiff : (if avg < -(4611686018427387904 : Int) then wrap64 ((e - s) - avg) else (e - s) - avg) = (e - s) - avg := by
+      rw [if_neg]; omega
+    simp only [hdiff]
     by_cases hbase : (e - s) - avg ≤ var
     · refine ⟨[(s, e)], draws, by simp [hbase], by simp [Chain], ?_⟩
       intro p hp
       simp only [List.mem_singleton] at hp
       subst hp
       exact ⟨by simp; omega, fun h => h, hse⟩
-    · simp only [hbase, if_false]
+    · have hsmall : ¬ (e - s < 2) := by omega
+      have hcond : ((g && decide (e - s < 2)) || decide (e - s - avg ≤ var)) = false := by
+        simp [hsmall, hbase]
+      simp only [hcond, Bool.false_eq_true, if_false]
       have hsize : avg + var < e - s := by omega
       have htd : Int.tdiv (e - s) 2 = (e - s) / 2 := Int.tdiv_eq_ediv_of_nonneg (by omega)
+      have hmax : var ≤ Int.tdiv maxInt64 2 := by
+        have : Int.tdiv maxInt64 2 = 4611686018427387903 := by decide
+        omega
+      have hclamp : ∀ mid : Int, s < mid → mid < e →
+          (if g = true then (if mid ≤ s then s + 1 else if mid ≥ e then e - 1 else mid) else mid) = mid := by
+        intro mid h1 h2
+        have a1 : ¬ (mid ≤ s) := by omega
+        have a2 : ¬ (mid ≥ e) := by omega
+        cases g <;> simp [a1, a2]
       have finish : ∀ mid ds, s < mid → mid < e → ∃ l r1 r r2,
-          slicerChunk avg var fuel s mid ds = .ok l r1 ∧ slicerChunk avg var fuel mid e r1 = .ok r r2 ∧
+          slicerChunk g avg var fuel s mid ds = .ok l r1 ∧ slicerChunk g avg var fuel mid e r1 = .ok r r2 ∧
           Chain s e (l ++ r) ∧ (∀ p ∈ l ++ r, p.2 - p.1 ≤ avg + var ∧ (s < e → p.1 < p.2) ∧ p.1 ≤ p.2) := by
         intro mid ds hm1 hm2
         obtain ⟨l, r1, hl, hcl, hpl⟩ := ih s mid ds (by omega) (by omega)
@@ -78,27 +93,93 @@ theorem C12_chunk (avg var : Int) (h : SlicerOK avg var) :
       rw [hwrap, htd]
       by_cases hv : var > 0
       · have hnw : ¬ (var * 2 ≤ 0) := by omega
-        simp only [hv, if_true, hnw, if_false]
+        have hc2 : (decide (var > 0) && (!g || decide (var ≤ Int.tdiv maxInt64 2))) = true := by
+          simp [hv, hmax]
+        simp only [hc2, if_true, hnw, if_false]
         cases draws with
         | nil =>
           obtain ⟨l, r1, r, r2, hl, hr, hc, hp⟩ := finish (s + (e - s) / 2 - var) [] (by omega) (by omega)
-          exact ⟨l ++ r, r2, by simp [hl, hr], hc, hp⟩
+          refine ⟨l ++ r, r2, ?_, hc, hp⟩
+          simp only [hclamp (s + (e - s) / 2 - var) (by omega) (by omega), hl, hr]
         | cons d ds =>
           have h1 := Int.emod_nonneg d (b := var * 2) (by omega)
           have h2 := Int.emod_lt_of_pos d (b := var * 2) (by omega)
           obtain ⟨l, r1, r, r2, hl, hr, hc, hp⟩ :=
             finish (s + (e - s) / 2 + d % (var * 2) - var) ds (by omega) (by omega)
-          exact ⟨l ++ r, r2, by simp [hl, hr], hc, hp⟩
-      · simp only [hv, if_false]
+          refine ⟨l ++ r, r2, ?_, hc, hp⟩
+          simp only [hclamp (s + (e - s) / 2 + d % (var * 2) - var) (by omega) (by omega), hl, hr]
+      · have hc2 : (decide (var > 0) && (!g || decide (var ≤ Int.tdiv maxInt64 2))) = false := by
+          simp [hv]
+        simp only [hc2, Bool.false_eq_true, if_false]
         obtain ⟨l, r1, r, r2, hl, hr, hc, hp⟩ := finish (s + (e - s) / 2) draws (by omega) (by omega)
-        exact ⟨l ++ r, r2, by simp [hl, hr], hc, hp⟩
+        refine ⟨l ++ r, r2, ?_, hc, hp⟩
+        simp only [hclamp (s + (e - s) / 2) (by omega) (by omega), hl, hr]
+
+/-- **C07/C12 (the repaired recursion is total).** For *every* average_size and
+size_variation (zero, negative, larger than the data, up to the ends of int64), every
+`start ≤ end`, every list of draws and fuel exceeding the size, the guarded `chunk`
+terminates without panic and returns a monotone chain of offsets from `start` to `end`. -/
+theorem chunk_total (avg var : Int) :
+    ∀ (fuel : Nat) (s e : Int) (draws : List Int), s ≤ e → e - s < fuel →
+      ∃ offs rest, slicerChunk true avg var fuel s e draws = .ok offs rest ∧ Chain s e offs ∧
+        (∀ p ∈ offs, p.1 ≤ p.2) := by
+  intro fuel
+  induction fuel with
+  | zero => intro s e _ _ h; omega
+  | succ fuel ih =>
+    intro s e draws hse hfuel
+    unfold slicerChunk
+    generalize (if avg < -(4611686018427387904 : Int) then wrap64 ((e - s) - avg) else (e - s) - avg) = diff
+    by_cases hbase : ((true && decide (e - s < 2)) || decide (diff ≤ var)) = true
+    · refine ⟨[(s, e)], draws, by simp only [hbase, if_true], by simp [Chain], ?_⟩
+      intro p hp
+      simp only [List.mem_singleton] at hp
+      subst hp
+      exact hse
+    · simp only [hbase, Bool.false_eq_true, if_false]
+      have hsz : ¬ (e - s < 2) := by
+        intro h; apply hbase; simp [h]
+      have finish : ∀ mid1 ds, ∃ offs rest,
+          (match slicerChunk true avg var fuel s (if true = true then (if mid1 ≤ s then s + 1 else if mid1 ≥ e then e - 1 else mid1) else mid1) ds with
+            | .ok l ds' =>
+              match slicerChunk true avg var fuel (if true = true then (if mid1 ≤ s then s + 1 else if mid1 ≥ e then e - 1 else mid1) else mid1) e ds' with
+              | .ok r ds'' => ChunkRes.ok (l ++ r) ds''
+              | x => x
+            | x => x) = .ok offs rest ∧ Chain s e offs ∧ (∀ p ∈ offs, p.1 ≤ p.2) := by
+        intro mid1 ds
+        simp only [if_true]
+        generalize hm : (if mid1 ≤ s then s + 1 else if mid1 ≥ e then e - 1 else mid1) = mid
+        have hm1 : s < mid ∧ mid < e := by
+          rw [← hm]; split
+          · omega
+          · split <;> omega
+        obtain ⟨l, r1, hl, hcl, hpl⟩ := ih s mid ds (by omega) (by omega)
+        obtain ⟨r, r2, hr, hcr, hpr⟩ := ih mid e r1 (by omega) (by omega)
+        refine ⟨l ++ r, r2, by simp [hl, hr], chain_append hcl hcr, ?_⟩
+        intro p hp
+        rcases List.mem_append.mp hp with hp | hp
+        · exact hpl p hp
+        · exact hpr p hp
+      by_cases hc2 : (decide (var > 0) && (!true || decide (var ≤ Int.tdiv maxInt64 2))) = true
+      · simp only [hc2, if_true]
+        have hv : 0 < var ∧ var ≤ Int.tdiv maxInt64 2 := by simpa using hc2
+        have hmax : Int.tdiv maxInt64 2 = 4611686018427387903 := by decide
+        have hwrap : wrap64 (var * 2) = var * 2 := wrap64_id _ (by omega) (by omega)
+        have hnw : ¬ (var * 2 ≤ 0) := by omega
+        rw [hwrap]
+        simp only [hnw, if_false]
+        cases draws with
+        | nil => exact finish _ _
+        | cons d ds => exact finish _ _
+      · simp only [hc2, Bool.false_eq_true, if_false]
+        exact finish _ _
 
 /-- The fuel the stage gives to `chunk` always suffices (`outOfFuel`, i.e. the unbounded
 recursion of the Go code, is unreachable under the guard). -/
-theorem C12_terminates (avg var : Int) (h : SlicerOK avg var) (size : Nat) (draws : List Int) :
-    ∃ offs rest, slicerChunk avg var (slicerFuel size) 0 size draws = .ok offs rest ∧
+theorem C12_terminates (g : Bool) (avg var : Int) (h : SlicerOK avg var) (size : Nat) (draws : List Int) :
+    ∃ offs rest, slicerChunk g avg var (slicerFuel size) 0 size draws = .ok offs rest ∧
       Chain 0 size offs ∧ (∀ p ∈ offs, p.2 - p.1 ≤ avg + var ∧ ((0:Int) < size → p.1 < p.2) ∧ p.1 ≤ p.2) := by
-  have := C12_chunk avg var h (slicerFuel size) 0 size draws (by omega) (by unfold slicerFuel; omega)
+  have := C12_chunk g avg var h (slicerFuel size) 0 size draws (by omega) (by unfold slicerFuel; omega)
   simpa using this
 
 /-- The pieces cut out of `data` by a list of offsets. -/
@@ -183,27 +264,27 @@ theorem C12_interrupt (v : Variant) (avg var delay : Int) (st : StubSt) (d : Int
 
 /-- Non-vacuity: 100 bytes, average 30, variation 5, draws 3, 9, 0: pieces of 28, 20, 21, 31
 bytes (all ≤ 35), a chain from 0 to 100. -/
-example : slicerChunk 30 5 (slicerFuel 100) 0 100 [3, 9, 0, 0]
+example : slicerChunk true 30 5 (slicerFuel 100) 0 100 [3, 9, 0, 0]
     = .ok [(0, 28), (28, 48), (48, 69), (69, 100)] [0] := by decide
 
 /-- The guard matters: with default attributes (0, 0) and one byte the recursion never
 terminates — no fuel suffices (in Go: stack overflow, the process dies; finding C07 a). -/
-theorem C12_unguarded_diverges : ∀ fuel draws, slicerChunk 0 0 fuel 0 1 draws = .outOfFuel := by
+theorem C12_unguarded_diverges : ∀ fuel draws, slicerChunk false 0 0 fuel 0 1 draws = .outOfFuel := by
   intro fuel
   induction fuel with
   | zero => intro _; rfl
   | succ n ih =>
     intro draws
     unfold slicerChunk
-    have h1 : ¬ ((1:Int) - 0 - 0 ≤ 0) := by decide
-    simp only [h1, if_false]
     have : Int.tdiv (1 - 0) 2 = 0 := by decide
-    simp only [gt_iff_lt, Int.lt_irrefl, if_false, this, Int.add_zero]
     cases n with
-    | zero => simp [slicerChunk]
+    | zero => simp [slicerChunk, this]
     | succ m =>
-      have hl : slicerChunk 0 0 (m + 1) 0 0 draws = .ok [(0, 0)] draws := by
+      have hl : slicerChunk false 0 0 (m + 1) 0 0 draws = .ok [(0, 0)] draws := by
         simp [slicerChunk]
-      simp only [hl, ih draws]
+      simp [this, hl, ih draws]
+
+/-- … and the repaired recursion does terminate there: one piece. -/
+example : slicerChunk true 0 0 (slicerFuel 1) 0 1 [] = .ok [(0, 1)] [] := by decide
 
 end Toxi.Toxic
